@@ -13,6 +13,7 @@ CONSTANTS
   AckLate = TRUE
   RecordBefore = TRUE
   StrictStart = FALSE
+  Unrequests = FALSE
 INVARIANTS TypeOK NoStepViolation OnceOnly ExitComplete ExitStatusRight KeepAlive ServiceUpForDependents SingleInstance CleanExit UpToDate
 POSTCONDITION TraceAccepted
 CHECK_DEADLOCK FALSE
